@@ -30,6 +30,9 @@ func monitorsExtra(m *mon) {
 		if strings.HasPrefix(n, "ORDER:") {
 			m.add("C04", "order", "%s", n)
 		}
+		if strings.HasPrefix(n, "WFSTATUS:") {
+			m.add("C16", "not-processing", "%s", n)
+		}
 		if strings.HasPrefix(n, "wf invoked with unknown data") {
 			m.add("C12", "payload", "%s", n)
 			m.add("C01", "identity", "%s", n)
@@ -71,6 +74,24 @@ func monitorsExtra(m *mon) {
 func (m *mon) c04() {
 	if !m.props["C04"] {
 		return
+	}
+	// "with concurrency n the set of started jobs is a prefix of the order": a job counts as started
+	// when it is handed to a pool goroutine, so that goroutine must be free to run it. A pool
+	// goroutine that has put its node back on the idle list calls nothing of the user's (the
+	// adapter's Acknowledge, a worker function) before it is back at its receive: otherwise the
+	// next job of the order waits behind that call while later ones start on other goroutines.
+	freed := map[int]bool{}
+	for _, ev := range m.s.Log {
+		fn := siteFunc(ev.Site)
+		switch {
+		case ev.Kind == "lock" && fn == "List.PushNode":
+			freed[ev.Tid] = true
+		case ev.Kind == "recv" && fn == "Node.Serve":
+			freed[ev.Tid] = false
+		case (ev.Kind == "ad:ack" || ev.Kind == "uq:ack" || ev.Kind == "wf+") && freed[ev.Tid]:
+			m.add("C04", "prefix", "pool goroutine g%d put its node back on the idle list and then went into %s before returning to its receive: the next job of the order, dispatched to that node, waits behind it while later jobs start", ev.Tid, ev.Kind)
+			freed[ev.Tid] = false
+		}
 	}
 	disp := func(s *sub) int {
 		if s.jobPtr != nil {
@@ -330,7 +351,11 @@ func init() {
 			n := 1 + r.Intn(4)
 			jn.goClient("producer", func() {
 				for i := 0; i < n; i++ {
-					e.add(q, r.Intn(3), randOutcome(r), false, fmt.Sprintf("pid-%d", e.nextData+1))
+					id := fmt.Sprintf("pid-%d", e.nextData+1)
+					if r.Intn(4) == 0 {
+						id = "  " + id + " " // carried verbatim, surrounding white space included
+					}
+					e.add(q, r.Intn(3), randOutcome(r), false, id)
 				}
 			})
 		}
@@ -526,7 +551,7 @@ func init() {
 		e.conc = 1
 		e.strat = Strategy(e.p("strategy", r.Intn(3)))
 		e.mkWorker()
-		nq := e.p("queues", 2+r.Intn(3))
+		nq := e.p("queues", 2+r.Intn(4))
 		for i := 0; i < nq; i++ {
 			e.bind(pick(r, qFifo, qPrio, qPersist, qPersistPrio, qDist))
 		}
@@ -602,6 +627,16 @@ func init() {
 			cur[sel]--
 		}
 		e.wantSel = want
+		if r.Intn(3) == 0 {
+			// an empty queue is closed: it stays where it is bound and the others keep their turns
+			for i := 0; i < nq; i++ {
+				if lens[i] == 0 && (e.qkinds[i] == qFifo || e.qkinds[i] == qPrio) {
+					e.p("closedEmpty", 1)
+					e.closeQueue(i)
+					break
+				}
+			}
+		}
 		e.lifecycle("Resume", 0)
 		if r.Intn(2) == 0 {
 			// pauses while draining: a pause must not cost a queue its turn
